@@ -317,8 +317,18 @@ class Prog:
             return d.keep(e["path"], fn, *args, **kwargs)
         return fn(*args, **kwargs)
 
+    def activate(self):
+        """several program instances may live in one worker: make this one's store and accepted package current"""
+        import dds
+        import dds._api as api
+        if api._store_var is not self.capture and self.capture is not None:
+            dds.set_store(self.capture)
+        for p in [self.pkg] + self.extra_accept:
+            dds.accept_module(p)
+
     def run(self, entry, opts=None, fault=None):
         """-> (real Obs, reference Obs)"""
+        self.activate()
         pl = self.w.pipelog
         rd = self.w.refdds
         # reference first (its committed map is the model of the paths)
@@ -389,6 +399,7 @@ class Prog:
 
     def load(self, path):
         import dds
+        self.activate()
         return dds.load(path)
 
     def cleanup(self):
